@@ -532,10 +532,10 @@ theorem step_exactInv (s : Inst) (op : Op) (h : ExactInv s) (hc : op.clean) : Ex
   | atts c items f => exact signAtts_exact h c items f hc.1 hc.2.1 hc.2.2
   | prop c a d f => exact signProp_exact h c a d f hc.1 hc.2.1 hc.2.2
   | sign c ip a d =>
-    have hf := signGeneric_frame s c ip a d false
+    have hf := signGeneric_frame s c ip a d false false
     exact exactInv_of_frame h hf.1 hf.2.1 hf.2.2
   | msign c ip items =>
-    have hf := multisign_frame s c ip items []
+    have hf := multisign_frame s c ip items [] false
     exact exactInv_of_frame h hf.1 hf.2.1 hf.2.2
   | restart => exact h
   | importRec k r => exact absurd hc id
@@ -575,14 +575,14 @@ theorem signAtts_cfg (s : Inst) (c : String) (items : List (Addr × AttData)) (f
   repeat' split
   all_goals rfl
 
-theorem signGeneric_cfg (s : Inst) (c ip : String) (a : Addr) (d : SignData) (sf : Bool) :
-    (signGeneric s c ip a d sf).1.cfg = s.cfg := by
+theorem signGeneric_cfg (s : Inst) (c ip : String) (a : Addr) (d : SignData) (sf lf : Bool) :
+    (signGeneric s c ip a d sf lf).1.cfg = s.cfg := by
   unfold signGeneric
   repeat' split
   all_goals rfl
 
-theorem multisign_cfg (s : Inst) (c ip : String) (items : List (Addr × SignData)) (sf : List Nat) :
-    (multisign s c ip items sf).1.cfg = s.cfg := by
+theorem multisign_cfg (s : Inst) (c ip : String) (items : List (Addr × SignData)) (sf : List Nat) (lf : Bool) :
+    (multisign s c ip items sf lf).1.cfg = s.cfg := by
   unfold multisign
   simp only
   repeat' split
@@ -594,8 +594,8 @@ theorem step_cfg_partial (s : Inst) (op : Op) (hk : op.keepsCfg) : (step s op).1
   | att c a d f => exact signAtt_cfg s c a d f false
   | atts c items f => exact signAtts_cfg s c items f []
   | prop c a d f => exact signProp_cfg s c a d f false
-  | sign c ip a d => exact signGeneric_cfg s c ip a d false
-  | msign c ip items => exact multisign_cfg s c ip items []
+  | sign c ip a d => exact signGeneric_cfg s c ip a d false false
+  | msign c ip items => exact multisign_cfg s c ip items [] false
   | restart => rfl
   | importRec k r => rfl
   | importCmd gvr f => exact (step_importCmd_frame s gvr f).1
